@@ -14,6 +14,11 @@ transaction, and `PkgFilter` alone.
   fwdpkg-state      state ≠ lockedIn (no forwarding decision persisted) / processed / completed
                     (decision persisted, every add and every settle/fail acknowledged)
   fwdpkg-op-failed  a transaction with well-indexed references on existing packages failed
+  fwdpkg-ack-without-commitdiff  crash image after an intermediate write transaction of one call:
+                    an index is marked acknowledged although no completed earlier operation
+                    acknowledged it and the image holds no commit diff carrying it
+  (correspondence `write-tx-count`: every operation of the model is ONE write transaction; the
+   harness counts the transactions the code commits per call)
   pkgfilter-contains / pkgfilter-isfull / pkgfilter-roundtrip   the same on a bare PkgFilter
 -/
 import LndModel.Prelude.Lines
@@ -95,6 +100,12 @@ structure St where
   mB : Store := {}
   hA : List Hist := []
   hB : List Hist := []
+  preA : List Hist := []            -- histories before the last operation (for its crash images)
+  preB : List Hist := []
+  opAdd : List (String × Nat × Nat) := []   -- acknowledgements carried by the last sign operation
+  opSf : List (String × Nat × Nat) := []
+  txChecked : Nat := 0
+  imgChecked : Nat := 0
   curCh : String := ""
   curN : Nat := 0
   curPkgs : List LPkg := []
@@ -331,12 +342,22 @@ def modelAckSf (mA mB : Store) (crefs : List (String × Nat × Nat)) : FErr × S
 
 def opLine (s : St) (ws : List String) : IO St := do
   let s ← flushLoad s
-  let mut s := { s with ops := s.ops + 1 }
+  let mut s := { s with ops := s.ops + 1, preA := s.hA, preB := s.hB, opAdd := [], opSf := [] }
   match ws with
   | "O" :: op :: rest =>
     let ch := (kv? rest "ch").getD "A"
     let impl := resOf ws
     s := { s with opKinds := bump s.opKinds s!"{op}_{impl}" }
+    -- atomicity: one write transaction per successful operation, none for a failed one
+    if let some n := kvNat? (afterArrow ws) "txs" then
+      s := { s with txChecked := s.txChecked + 1 }
+      let want := if impl == "ok" then 1 else 0
+      if n != want then
+        s ← mismatch s s!"write-tx-count channel {ch} {op} => {impl}: the model performs {want} atomic write(s), the code committed {n} write transactions"
+        s := { s with modelOk := true }
+    if op == "sign" then
+      s := { s with opAdd := (parseRefs ((kv? rest "acks").getD "-")).map (fun r => (ch, r.1, r.2)),
+                    opSf := parseChRefs ((kv? rest "sfacks").getD "-") }
     let m := s.model ch
     let hist := s.hist ch
     match op with
@@ -460,6 +481,22 @@ def step (s : St) (line : String) : IO St := do
         sf := parseFDump ((kv? rest "sf").getD "") }
     return { s with curPkgs := s.curPkgs ++ [p] }
   | "O" :: _ => opLine s ws
+  | "MI" :: rest =>
+    -- crash image after write transaction k of the last operation (it committed several)
+    let pend := (kvNat? rest "pend").getD 0 == 1
+    let k := (kvNat? rest "k").getD 0
+    let mut s := { s with imgChecked := s.imgChecked + 1 }
+    for (sel, key, nm) in [(false, "acked", "add"), (true, "sfacked", "settle/fail")] do
+      let bits := parseChRefs ((kv? rest key).getD "-")
+      let bad := bits.filter fun (c, h, i) =>
+        let hist := if c == "A" then s.preA else s.preB
+        let before := match hist.find? (·.height == h) with
+          | some p => (if sel then p.sfAcked else p.acked).contains i
+          | none => false
+        !(before || (pend && (if sel then s.opSf else s.opAdd).contains (c, h, i)))
+      if !bad.isEmpty then
+        s ← monitor s "fwdpkg-ack-without-commitdiff" s!"crash after write transaction {k} of one call of channel {(kv? rest "ch").getD "?"}: {nm} indices {bad} are marked acknowledged in their forwarding packages, but no earlier operation acknowledged them and the reloaded channel has {if pend then "a commit diff that does not carry them" else "NO pending commit diff"}"
+    return s
   | "HSTAT" :: kvs =>
     for w in kvs do IO.println s!"STAT h_{w}"
     return s
@@ -484,6 +521,8 @@ def main : IO Unit := do
   IO.println s!"STAT locked_in_packages_reloaded_before_SetFwdFilter={s.lockedReloads}"
   IO.println s!"STAT completed_packages_at_reload={s.completed}"
   IO.println s!"STAT bare_filter_evaluations={s.filterEvals}"
+  IO.println s!"STAT operations_with_write_tx_count_checked={s.txChecked}"
+  IO.println s!"STAT crash_images_inside_operations_checked={s.imgChecked}"
   for (k, v) in s.opKinds do
     IO.println s!"STAT op_{k}={v}"
   IO.println s!"STAT mismatches={s.mismatches}"
